@@ -77,6 +77,14 @@ def diff(a, b, path=""):
     return None if a == b else "%s: %r != %r" % (path, a, b)
 
 
+REFUSED_DOCUMENT = json.dumps({
+    "header": {"type": "productmd.composeinfo", "version": "1.2"},
+    "payload": {"compose": {"id": "Other-9-20991231.t.7", "type": "test", "date": "20991231", "respin": 7, "label": "RC-9.9", "final": True},
+                "release": {"name": "Other", "short": "Other", "version": "9.x", "type": "eus", "internal": True, "is_layered": True},
+                "base_product": {"name": "Base", "short": "Base", "version": "1", "type": "aus"},
+                "variants": {"Other": {"id": "Other", "uid": "Other", "name": "Other", "type": "variant", "arches": ["s390x"], "paths": {"os_tree": {"s390x": "x"}}}}}})
+
+
 def roundtrip(case):
     from productmd.composeinfo import ComposeInfo
     desc = case["desc"]
@@ -120,6 +128,20 @@ def roundtrip(case):
     for node in cim.all_nodes(desc["variants"]):
         v = must("lookup-by-uid", lambda u=node["uid"]: again[u])
         check(v.uid == node["uid"], "lookup-by-uid-wrong", "ci[%r].uid == %r" % (node["uid"], v.uid))
+
+    # a reader that was first offered a document it refused (a retry loop over candidate files): the refused document is read as
+    # far as its compose section, then rejected for its release version - nothing of it shows in what is read afterwards
+    used = ComposeInfo()
+    try:
+        used.loads(REFUSED_DOCUMENT)
+    except Exception:  # noqa
+        pass
+    else:
+        raise Violation("harness-refused-document-accepted", "harness: the document meant to be refused was loaded")
+    must("loads-after-refused-document", used.loads, text)
+    d = diff(want, must("snapshot", cim.snapshot, used))
+    check(d is None, "reread-differs-after-refused-document", lambda: "object that refused another document first, then read this one: %s" % d)
+    check(must("dumps-after-refused-document", used.dumps) == text, "second-dump-differs-after-refused-document", "an object that refused another document first writes this one differently")
 
     # (3) second dump byte-identical
     text2 = must("second-dumps", again.dumps)
